@@ -167,6 +167,22 @@ def fam_cancel_behind_busy_writer(rng, ident):
     return scn.line("scn", ident, s, extra="nt=1 family=cancel-behind-busy-writer-then-stop")
 
 
+def fam_reply_behind_stall_then_stop(rng, ident):
+    """replies the library writes itself (handler results, not-found errors) are waiting behind a writer that is stuck inside
+    Write when the transport is closed: the goroutines producing them must not stay behind"""
+    s = []
+    nh = rng.below(3)
+    for i in range(nh):
+        s += ["feednowait/" + scn.feed_call(50 + i, 500 + i)[5:], "waithandlers/%d" % (i + 1)]
+    s += ["stallw/on", scn.notify(1, nowait=True), "waitinwrite"]
+    for i in range(nh):
+        s.append(scn.finish(i, 500 + i, nowait=True))
+    for i in range(1 + rng.below(2)):
+        s.append("feednowait/" + scn.feed_call(60 + i, 600 + i, meth=rng.choice([b"p.nosuch", b"q.m"]))[5:])
+    s += ["sleep/3", "close", "await/n1", "settle", "sleep/3", "settle", "sample/final"]
+    return scn.line("scn", ident, s, extra="nt=1 family=reply-behind-stalled-writer-then-close")
+
+
 def explore(ctx):
     rng, tier = ctx["rng"], ctx["tier"]
     if ctx.get("replay"):
@@ -194,6 +210,8 @@ def explore(ctx):
             lines.append(fam_cancelled_then_close(rng, "p%d" % n)); n += 1
         for _ in range({"quick": 12, "thorough": 200, "search": 30}[tier]):
             lines.append(fam_cancel_behind_busy_writer(rng, "q%d" % n)); n += 1
+        for _ in range({"quick": 12, "thorough": 200, "search": 30}[tier]):
+            lines.append(fam_reply_behind_stall_then_stop(rng, "y%d" % n)); n += 1
     triples, tie = C.run_both(ctx, "TestVerifScn", lines, go_timeout=1500)
     fams = {}
     for l in lines:
